@@ -533,6 +533,7 @@ func c16Call(req string) string {
 	case "copy":
 		a := c16Build(f[1])
 		r, err := ins.Copy(a.x)
+		laterCopies(ins, a.x)
 		if r == nil {
 			return "nil;err=" + c16Err(err)
 		}
